@@ -1015,7 +1015,13 @@ public:
 
   bool is_bottom() const override { return m_product.is_bottom(); }
 
-  bool is_top() const override { return m_product.is_top(); }
+  bool is_top() const override {
+    // The maps used for reduction are part of the meaning: "if b is
+    // true then constraint C (or boolean b') holds" excludes states
+    // even if the product is top.
+    return m_product.is_top() && m_bool_to_lincsts.is_top() &&
+           m_bool_to_refcsts.is_top() && m_bool_to_bools.is_top();
+  }
 
   bool_domain_t &first() { return m_product.first(); }
 
